@@ -100,28 +100,32 @@ Proof. exact abf_old_refuted. Qed.
 Print Assumptions C14_abf_union_once_before_repair_refuted.
 
 (* ---- file-based multiple-walker metadynamics: one peer (writer) and one reader; a trace is any
-   interleaving of the peer's deposits, of what the reader can see of the peer's hills file (any prefix),
-   of the peer's state-file rewrites and restarts (with or without a new output prefix), and of the
-   reader's exchanges, own state-file writes and restarts.  trace_ok true = the peer numbers its own steps
-   sensibly (hills later than the state file in place; state files not earlier than their hills) and the
-   reader does not exchange between the two halves of a state-file rewrite of the peer (state file renamed,
-   hills file not yet restarted); PWState is the rewrite as one atomic event, PWStateA/PWStateB its halves. *)
+   interleaving of the peer's deposits, of what the reader can see of the peer's hills file (any prefix) and of
+   its state file (all of it, or a proper prefix), of the peer's state-file rewrites -- as one event or as their
+   two halves, hills file restarted (PWStateB) then state file renamed (PWStateA) -- and restarts (with or
+   without a new output prefix), and of the reader's exchanges, own state-file writes and restarts.
+   trace_ok true = the peer numbers its own steps sensibly (hills later than the state file in place; state
+   files not earlier than their hills) and performs the two halves in the order of the repaired code.
+   NOTHING is assumed of the reader: it may exchange at any moment, also between the two halves. *)
 
 (* Whatever the interleaving: the hills the reader holds for the peer are a prefix of the peer's deposited
    sequence (no loss inside, no duplicate, in order); and right after each exchange of the reader with a
-   registered peer, everything visible of the peer (state file + complete visible records) is in it. *)
+   registered peer, everything visible of the peer (state file, if all of it is visible, + complete visible
+   records) is in it; a partly visible state file leaves what the reader holds untouched. *)
 Theorem C14_meta_prefix :
   (forall es w m, trace_ok true true true es pinit = true ->
      prun true true es pinit = (w, Some m) -> prefix (m_cont m) (w_D w)) /\
   (forall es w om, trace_ok true true true (es ++ [RShare]) pinit = true ->
      prun true true (es ++ [RShare]) pinit = (w, om) -> w_reg w = true ->
-     exists m, om = Some m /\ prefix (visible w) (m_cont m) /\ prefix (m_cont m) (w_D w) /\ m_sync m = true).
+     exists m, om = Some m /\ prefix (visible w) (m_cont m) /\ prefix (m_cont m) (w_D w) /\
+               (w_sok w = true -> m_sync m = true) /\
+               (w_sok w = false -> m_cont m = cont_of (prun true true es pinit))).
 Proof. exact meta_prefix_both. Qed.
 Print Assumptions C14_meta_prefix.
 
 (* A peer's (re)read state file replaces, never adds to, what was read before: for ANY previous mirror
    content and read position the result is the state file plus the visible later records. *)
-Theorem C14_meta_restart : forall w m, w_reg w = true ->
+Theorem C14_meta_restart : forall w m, w_reg w = true -> w_sok w = true ->
   (m_sync m = false \/ m_has m = false \/ name_is (m_name m) (w_name w) = false \/
    (m_S m <> sf_step (w_state w) /\ m_has m = true)) ->
   exists m', share true true w (Some m) = Some m' /\
@@ -153,13 +157,13 @@ Theorem C14_meta_prefix_before_repair2_refuted : exists es, trace_ok true true f
 Proof. exact meta_old2_refuted. Qed.
 Print Assumptions C14_meta_prefix_before_repair2_refuted.
 
-(* Without the reader-side premise (trace_ok false: the writer-side conditions only) C14_meta_prefix is false
-   also of the repaired code: a reader that exchanges between the peer's state-file rename and the restart of
-   its hills file later reads the new hills file from the position reached in the old one. *)
-Theorem C14_meta_prefix_exchange_inside_state_rewrite_refuted : exists es, trace_ok false true true es pinit = true /\
+(* With the two halves in the order the code used before repair 8 (trace_ok false: state file renamed, then
+   hills file restarted) C14_meta_prefix is false even with the other repairs: a reader that exchanges between
+   the two later reads the new hills file from the position reached in the old one. *)
+Theorem C14_meta_prefix_old_order_refuted : exists es, trace_ok false true true es pinit = true /\
   prefixb (cont_of (prun true true es pinit)) (w_D (fst (prun true true es pinit))) = false.
-Proof. exact meta_midway_refuted. Qed.
-Print Assumptions C14_meta_prefix_exchange_inside_state_rewrite_refuted.
+Proof. exact meta_old_order_refuted. Qed.
+Print Assumptions C14_meta_prefix_old_order_refuted.
 
 (* ---- non-vacuity of the premises *)
 Example C14_ex_group : GrpLaws Zgrp.
@@ -174,17 +178,21 @@ Example C14_ex_meta : trace_ok true true true (meta_w1 ++ [RShare]) pinit = true
   cont_of (prun true true meta_w1 pinit) = [H 1; H 2; H 3; H 4; H 5].
 Proof. vm_compute. auto. Qed.
 
-(* a trace with a two-stage rewrite during which the reader does not exchange satisfies the premises *)
-Example C14_ex_meta_two_stage :
-  trace_ok true true true [PSetup 0 false; PDeposit (H 1); PVis 1; RShare; PWStateA 1; PVis 0; RWState; PWStateB;
-                           PDeposit (H 2); PVis 1; RShare] pinit = true /\
-  cont_of (prun true true [PSetup 0 false; PDeposit (H 1); PVis 1; RShare; PWStateA 1; PVis 0; RWState; PWStateB;
-                           PDeposit (H 2); PVis 1; RShare] pinit) = [H 1; H 2].
+(* the scenario of the old-order witness with the halves in the repaired order: the reader exchanges between
+   them and nothing is lost; and a trace in which the state file is partly visible at an exchange *)
+Example C14_ex_meta_two_stage : trace_ok true true true meta_w3_new pinit = true /\
+  cont_of (prun true true meta_w3_new pinit) = [H 1; H 2; H 3; H 4; H 5].
+Proof. exact meta_w3_new_ok. Qed.
+
+Example C14_ex_meta_partial_state :
+  trace_ok true true true [PSetup 0 false; PDeposit (H 1); PVis 1; RShare; PWState 1; PDeposit (H 2); PVis 1; PSVis false; RShare] pinit = true /\
+  cont_of (prun true true [PSetup 0 false; PDeposit (H 1); PVis 1; RShare; PWState 1; PDeposit (H 2); PVis 1; PSVis false; RShare] pinit) = [H 1] /\
+  cont_of (prun true true [PSetup 0 false; PDeposit (H 1); PVis 1; RShare; PWState 1; PDeposit (H 2); PVis 1; PSVis false; RShare; PSVis true; RShare] pinit) = [H 1; H 2].
 Proof. vm_compute. auto. Qed.
 
 Example C14_ex_meta_restart : let w := fst (prun true true meta_w2 pinit) in
-  w_reg w = true /\ exists m, m_sync m = false.
-Proof. split; [vm_compute; reflexivity|]. exists m_new. reflexivity. Qed.
+  w_reg w = true /\ w_sok w = true /\ exists m, m_sync m = false.
+Proof. split; [vm_compute; reflexivity|]. split; [vm_compute; reflexivity|]. exists m_new. reflexivity. Qed.
 
 (* a 3-walker execution in which walker 1 enters the round first and walkers 0 and 2 go on sampling meanwhile *)
 Example C14_ex_interleaving : match srun Zgrp ex_acts (sinit Zgrp 3) with
